@@ -17,6 +17,11 @@ theorem contains_perm (regs regs' : List String) (h : regs.Perm regs') (s : Stri
     regs'.contains s = regs.contains s := by
   exact det_contains_perm regs regs' h s
 
+/-- … and so is the case-insensitive register-name test -/
+theorem isRegName_perm (regs regs' : List String) (h : regs.Perm regs') (s : String) :
+    isRegName regs' s = isRegName regs s := by
+  exact det_isRegName_perm regs regs' h s
+
 theorem hasReg_perm (regs regs' : List String) (h : regs.Perm regs') (e : E) : hasReg regs' e = hasReg regs e := by
   exact det_hasReg_perm regs regs' h e
 
